@@ -44,7 +44,7 @@ def run_check(prop, tier, seed, replay=None):
             gen_dir = None
             try:
                 gen_dir = core.write_gen(ws, raw, loaded)
-                for n in ('conf_parses', 'conf_loads', 'load_agrees', 'conf_wf'):
+                for n in ('conf_parses', 'conf_loads', 'the_loaded_eq', 'load_agrees', 'conf_wf'):
                     obligations.append((n, True))
             except CheckFailure as e:
                 name = core.failing_gen_lemma(e.detail, open(ws.path('gen', 'Hamlet.v')).read()) if os.path.exists(ws.path('gen', 'Hamlet.v')) else None
@@ -124,6 +124,12 @@ def run_check(prop, tier, seed, replay=None):
                     known_hits.setdefault(cls, []).append(c.as_json())
                 else:
                     failing.append({'case': c.as_json(), 'impl': it, 'what': f})
+        for (bc, bo, bf) in prop.oracle_bulk(cases, impl_out, ctx):
+            cls = prop.classify(bc, bo, bf)
+            if cls is not None:
+                known_hits.setdefault(cls, []).append(bc.as_json())
+            else:
+                failing.append({'case': bc.as_json(), 'impl': bo, 'what': bf})
         if disagreements:
             broken.append({'kind': 'correspondence', 'obligation': 'correspondence:' + prop.id,
                            'detail': json.dumps(disagreements[0])[:3000], 'count': len(disagreements)})
@@ -207,6 +213,8 @@ class PropBase:
         return None if model == impl else 'model and implementation differ'
     def oracle(self, case, impl, ctx):
         return None
+    def oracle_bulk(self, cases, impl_out, ctx):
+        return []
     def classify(self, case, impl, failure):
         return None
     def nontrivial(self, case, impl):
